@@ -348,7 +348,7 @@ func firstSanLine(stderr string) string {
 
 func checkC16(c *Ctx) error {
 	r := c.R
-	r.Rule = "commands 'type op A B' for the exported ferret_{i,u}{128,256}_* API (value and _ptr forms) with limb-boundary-weighted operands, each compared with math/big reduced mod 2^N; non-trivial = a distinct command whose two results both matched the oracle. Driver = runtime/core/bigint.c unmodified + ASan/UBSan (-fno-sanitize-recover)."
+	r.Rule = "commands 'type op A B' for the exported ferret_{i,u}{128,256}_* API (value and _ptr forms) with limb-boundary-weighted operands, each compared with math/big reduced mod 2^N; non-trivial = a distinct command whose two results both matched the oracle. Driver = runtime/core/bigint.c unmodified + ASan/UBSan (-fno-sanitize-recover). End-to-end layer: generated Ferret programs (14-23 statement groups each) over i128/u128/i256/u256 with boundary-weighted operands, both literal-initialised and routed through identity functions: + - * / % **, six comparisons, unary minus, nested expressions, compound assignment, ++/--, casts small->large / large->small / large->large, by-value calls, struct fields with narrow neighbours, fixed-array elements, accumulation loops, branches; compiled natively by the real compiler and every printed line compared with math/big reduced mod 2^N."
 	r.Assumptions = []string{"division/modulo by zero, negative shift counts and negative exponents are outside the property and not generated", "math/big is the oracle", "clang ASan+UBSan instrumentation of bigint.c; a clean run is not memory safety"}
 	driver, err := c.Env.CDriver("bigint_driver", true, "core/bigint.c")
 	if err != nil {
